@@ -380,6 +380,14 @@ fn op_glob(cmd: &Value) -> Value {
             v["comps"] = Value::Array(
                 g.verif_walk_component_patterns().iter().map(|p| re_info(p, false)).collect(),
             );
+            // the same programs and anchor for the glob after it has been re-owned (the walker
+            // derives them from the token tree, the complete program is retained)
+            let owned = g.clone().into_owned();
+            v["comps_owned"] = json!(owned.verif_walk_component_patterns());
+            let (oroot, opivot) = owned.verif_anchor("B0");
+            let (broot, bpivot) = g.verif_anchor("B0");
+            v["anchor"] = json!({"root": broot.to_string_lossy(), "pivot": bpivot,
+                                 "owned_root": oroot.to_string_lossy(), "owned_pivot": opivot});
             // partition
             let (prefix, post) = g.clone().partition();
             let mut part = json!({"prefix": prefix.to_string_lossy()});
